@@ -6,7 +6,7 @@ CONSTANTS
   Froms = {"absent", "ownBare", "ownFull", "ownOther", "server", "stranger", "contact", "look1", "look2", "look3"}
   ConnKinds = {"plain", "sm", "smr", "resumed"}
   MaxReqs = 2
-  MaxItems = 2
+  MaxItems = 1
   MaxHist = 99
 CONSTRAINT ReqBound
 INVARIANTS TypeOK ViewIsRef PresIsLatest
